@@ -145,10 +145,12 @@ def unit_by_route(unit, route):
         # fractions that sum to 1 only up to round-off on odd routes
         kg = eval_qty('kg')
         m5 = eval_qty('m^0.5')
+        # (left to right, so that the fractional exponent is present in the
+        # very multiplication in which the other one reaches its integer)
         if route % 2:
-            return m5 * (kg ** 0.6 * kg ** 0.3 * kg ** 0.1)
+            return m5 * kg ** 0.6 * kg ** 0.3 * kg ** 0.1
         if route % 4 == 2:
-            return (kg ** 0.7 * kg ** 0.3) * m5
+            return kg ** 0.7 * m5 * kg ** 0.3
         return u
     r = ROUTES[route % len(ROUTES)]
     if r == 'unit text':
